@@ -93,6 +93,12 @@ fn check_e1303_vehicle_breaks_time_is_correct(ctx: &ValidationContext) -> Result
                             VehicleBreak::Optional { time: VehicleOptionalBreakTime::TimeWindow(tw), .. } => {
                                 Some(get_time_window_from_vec(tw))
                             }
+                            // NOTE: offset interval must have start and end
+                            VehicleBreak::Optional { time: VehicleOptionalBreakTime::TimeOffset(offsets), .. }
+                                if offsets.len() != 2 =>
+                            {
+                                Some(None)
+                            }
                             VehicleBreak::Required {
                                 time: VehicleRequiredBreakTime::OffsetTime { earliest, latest },
                                 duration,
